@@ -22,7 +22,11 @@ def clean():
     subprocess.call(["git", "clean", "-fdq", "tests/", "src/"], cwd=wt)
 
 def demo_result():
-    rc, out = run(["cargo", "test", "--offline", "-j", "6", "--test", "verif_demo", "--", "--test-threads", "2"])
+    extra = []
+    fa = os.path.join(sd, "demo_features.txt")   # e.g. "--no-default-features --features encoder,xz,lzip"
+    if os.path.exists(fa):
+        extra = open(fa).read().split()
+    rc, out = run(["cargo", "test", "--offline", "-j", "6"] + extra + ["--test", "verif_demo", "--", "--test-threads", "2"])
     m = re.search(r"test result: (\w+)\. (\d+) passed; (\d+) failed", out)
     return rc, (m.group(0) if m else out[-400:])
 
